@@ -7,9 +7,9 @@ EXTENDS M2Layout, IOUtils
 Thorough == IOEnv.VERIF_TIER = "thorough"
 \* sections whose sizes vary with the version or that carry payloads, plus fixed-size neighbours
 MCSecs == IF Thorough
-          THEN {"name", "animations", "bones", "vertices", "textures", "views",
-                "ribbon_emitters", "events", "attachments", "cameras", "lights"}
-          ELSE {"name", "animations", "bones", "textures", "views", "events", "cameras", "lights"}
+          THEN {"name", "animations", "bones", "textures", "views", "events", "cameras"}
+          ELSE {"animations", "bones", "textures", "events"}
+KfChoices == IF Thorough THEN BOOLEAN ELSE {TRUE}
 Many == 3
 TailBytes(sec) == IF sec \in Tracked THEN Many * TracksOf(sec) * (2 * 4 + 2 * 12 + 2 * 8)
                   ELSE IF sec = "textures" THEN Many * 21
@@ -26,7 +26,7 @@ InitWith(fmt, ver, shape, tails) ==
   /\ mpc = "start" /\ msec = 1 /\ mcur = 0 /\ memit = 0
   /\ mhdr = NoHdr /\ mtrk = ZeroFn /\ mfile = << >> /\ mparsed = NoParse
 
-Init == \/ \E ver \in VerSet, pop \in SUBSET MCSecs, kf \in BOOLEAN : InitWith("m2", ver, ShapeOf(pop), TailsOf(pop, kf))
+Init == \/ \E ver \in VerSet, pop \in SUBSET MCSecs, kf \in KfChoices : InitWith("m2", ver, ShapeOf(pop), TailsOf(pop, kf))
         \/ \E fmt \in {"skin_old", "skin_new"}, pop \in SUBSET SecSet("skin_old") : InitWith(fmt, "WotLK", ShapeOf(pop), ZeroFn)
         \/ \E pop \in SUBSET SecSet("anim") : InitWith("anim", "MoP", AnimShape(pop), ZeroFn)
 Next == Step
